@@ -269,7 +269,7 @@ func (r *BufferReader) skipType(t TType, maxdepth int) error {
 		if err != nil {
 			return err
 		}
-		if sz < 0 {
+		if int32(sz) < 0 {
 			return errNegativeSize
 		}
 		ksz, vsz := int(typeToSize[uint8(kt)]), int(typeToSize[uint8(vt)])
@@ -304,7 +304,7 @@ func (r *BufferReader) skipType(t TType, maxdepth int) error {
 		if err != nil {
 			return err
 		}
-		if sz < 0 {
+		if int32(sz) < 0 {
 			return errNegativeSize
 		}
 		if vsz := typeToSize[uint8(vt)]; vsz > 0 {
